@@ -164,7 +164,8 @@ def oracle(scn, obs, ref, schedule):
             if i_r is None:
                 continue
             t_res = tl[i_r][3]
-            before = [(tt, v) for tt, v in ((t[4], t[2]) for t in tl[:i_r] if t[0] == "put" and t[1] == "sig")]
+            # (updates arriving at the very instant of the resume are concurrent with the timer that released the helper: rule 5c judges them)
+            before = [(tt, v) for tt, v in ((t[4], t[2]) for t in tl[:i_r] if t[0] == "put" and t[1] == "sig") if tt < t_res - 1e-9]
             if not before:
                 continue
             if before[-1][1]:
